@@ -27,7 +27,12 @@ Inductive c04case :=
    the trailer envelope, whether any later envelope carried header metadata, and
    what the caller got from Header() / Trailer() (unary: stats InHeader / the
    decoded wire list) *)
-| CSysResp (which : Z) (accepted : list mdmap) (order : list bytes) (wire : list kv) (later : bool) (got : option mdmap).
+| CSysResp (which : Z) (accepted : list mdmap) (order : list bytes) (wire : list kv) (later : bool) (got : option mdmap)
+(* unary RPC, what the caller's API delivers of the response metadata (which = 0
+   headers, 1 trailers): the list on the wire, whether Invoke with grpc.Header /
+   grpc.Trailer call options panicked, and the metadata those options received
+   (None = nothing was delivered) *)
+| CSysUnaryApi (which : Z) (wire : list kv) (panicked : bool) (api : option mdmap).
 
 Fixpoint reorder (order : list bytes) (m : mdmap) : mdmap :=
   match order with
@@ -169,6 +174,16 @@ Definition check (c : c04case) : list nat :=
        | None => [2%nat]
        end) ++
       (if later then [3%nat] else [])
+  | CSysUnaryApi which wire panicked api =>
+      (* metadata that is on the wire must reach the caller through the API *)
+      match wire with
+      | [] => []
+      | _ => if panicked then [4%nat]
+             else match api, to_md wire with
+                  | Some a, Some w => if md_eqb a w then [] else [4%nat]
+                  | _, _ => [4%nat]
+                  end
+      end
   end.
 
 Fixpoint find_bad_from (i : nat) (cs : list c04case) : list (nat * list nat) :=
